@@ -13,6 +13,7 @@ import (
 	"math/rand"
 	"os"
 	"path/filepath"
+	"runtime/debug"
 	"sort"
 	"strconv"
 	"strings"
@@ -260,6 +261,12 @@ func (r *Run) Violations() int { r.mu.Lock(); defer r.mu.Unlock(); return r.viol
 
 // Finish writes the evidence file. It fails the run as broken (exit 2) when too little was observed.
 func (r *Run) Finish() {
+	// Finish is the deferred call of every check: a panic of the harness must not be swallowed by the exit below
+	panicked := recover()
+	if panicked != nil {
+		fmt.Printf("BROKEN: property=%s harness panic: %v\n%s\n", r.ID, panicked, debug.Stack())
+		defer os.Exit(2)
+	}
 	r.mu.Lock()
 	if r.finished {
 		r.mu.Unlock()
